@@ -1,4 +1,6 @@
 import PxModel.DrvWs
+import PxModel.DrvIdle
+import PxModel.DrvDispatcher
 /-
   Line protocol driver: one operation per input line, one canonical result
   line per input line.  First token selects the model.
@@ -8,6 +10,8 @@ open Px
 def dispatch (line : String) : String :=
   match (line.splitOn " ").filter (· ≠ "") with
   | "ws" :: args => Ws.drv args
+  | "disp" :: args => Disp.drv args
+  | "idle" :: args => Idle.drv args
   | _ => "bad-op"
 
 partial def loop (h : IO.FS.Stream) (out : IO.FS.Stream) : IO Unit := do
